@@ -793,15 +793,20 @@ func drive(c Case) outcome {
 		}
 	}
 	out.hist = r.snapshot()
-	// hygiene: every goroutine of this case must be gone before the next case starts
+	// hygiene: every goroutine of this case must be gone before the next case starts. They end
+	// on their own within microseconds; the loop only waits for that. A leak is called only
+	// after 2 s AND thousands of polls (a descheduled process makes few polls in 2 s).
 	if out.wedged == "" {
-		deadline := time.Now().Add(2 * time.Second)
-		for runtime.NumGoroutine() > base {
-			if leaks >= 3 || time.Now().After(deadline) {
+		begin := time.Now()
+		for polls := 0; runtime.NumGoroutine() > base; polls++ {
+			el := time.Since(begin)
+			if leaks >= 3 || el > 2*time.Second && polls > 5000 || el > 30*time.Second {
 				out.leak = true
 				leaks++
+				n := runtime.NumGoroutine()
 				leakOnce.Do(func() {
-					fmt.Fprintf(os.Stderr, "c19: goroutines above baseline after a case (%d > %d); dump:\n%s\n", runtime.NumGoroutine(), base, goroutineDump())
+					cj, _ := json.Marshal(c)
+					fmt.Fprintf(os.Stderr, "c19: goroutines above baseline after a case (%d > %d, %d polls in %s); case %s; dump:\n%s\nafter the dump: %d\n", n, base, polls, el, cj, goroutineDump(), runtime.NumGoroutine())
 				})
 				break
 			}
